@@ -209,6 +209,23 @@ struct World {
 	std::vector<GInfo> ginfo;
 	std::vector<GPending> gpend;
 	bool oper_busy = false;
+	// event-triggered operator actions ("stop at this point"): the main task waits for the n-th event of a kind
+	int main_task = 0;
+	std::string trig_ev; // "" = none armed
+	int trig_sock = -1;
+	long trig_n = 0;
+	bool trig_fired = false;
+	void event(const char *ev, int si)
+	{
+		if (trig_ev.empty() || trig_fired || trig_ev != ev || (trig_sock >= 0 && trig_sock != si))
+			return;
+		if (--trig_n > 0)
+			return;
+		trig_fired = true;
+		ctx.count(std::string("probe_oper_fired_at_") + ev);
+		sim_wake(SIM_W_USER, this);
+		sim_switch_to_task(main_task); // the operator acts right here, in the middle of whatever the socket thread is doing
+	}
 	// C06
 	bool c06 = false;
 	uint64_t stamp = 0;
